@@ -20,7 +20,7 @@ TECHNIQUE = ("fault enumeration + property-based testing: the agent is an arbitr
              "simulation for repetition-independent functions; exhaustive over all functions on 4-OID universes in thorough")
 RULE = ("case = universe (1..3 roots, 2..5 OIDs inside each, OIDs before/between/after) x total function f "
         "(honest successor with 0..3 drawn defects, or fully random; repetition-dependent in half of the bulk "
-        "cases) x operation {walk, multiwalk, bulkwalk, table, bulktable} x errors {strict, warn} x bulk 0..8 x requests answered with an empty binding list x requests answered with an error-status (2, 5, 13) and an error-index inside / outside the request; "
+        "cases) x operation {walk, multiwalk, bulkwalk, table, bulktable} x errors {strict, warn} x bulk 0..8 x value bound to each returned OID {INTEGER, noSuchObject, noSuchInstance, OCTET STRING, NULL} x requests answered with an empty binding list x requests answered with an error-status (2, 5, 13) and an error-index inside / outside the request; "
         "non-trivial = f has a non-advancing step reachable from a root; distinct = SHA-1 of canonical JSON case")
 ASSUMPTIONS = [
     "bound (3) #requests <= #distinct OIDs revealed + #roots + 1 is deliberately loose",
@@ -30,7 +30,7 @@ ASSUMPTIONS = [
     "a response with a non-zero error-status must end the operation: normally (status 2 on a continuation request, documented) or with the ErrorResponse subclass; it must never be re-requested",
     "a response without any binding (max-repetitions 0, or scripted) must still end the operation: normally, or with SnmpError for the GETNEXT-based operations (binding-count mismatch)",
 ]
-REQUIRED_CLASSES = {"nonadvancing_reachable": 0.25, "bulk=0": 0.02, "empty_response_scripted": 0.15, "error_response_scripted": 0.15, "op=bulkwalk": 0.10, "op=walk": 0.10, "errors=warn": 0.10}
+REQUIRED_CLASSES = {"exception_marker_values": 0.15, "nonadvancing_reachable": 0.25, "bulk=0": 0.02, "empty_response_scripted": 0.15, "error_response_scripted": 0.15, "op=bulkwalk": 0.10, "op=walk": 0.10, "errors=warn": 0.10}
 
 P = (1, 3, 6, 1, 2, 1, 7)
 
@@ -133,7 +133,8 @@ def build(case):
     agent = vadversary.FunctionAgent(roots, U, case["f"], cap,
                                      stop_all_eom=case.get("stop_all_eom", True),
                                      empty_at=case.get("empty_at", ()),
-                                     error_at={int(k): tuple(v) for k, v in case.get("error_at", {}).items()})
+                                     error_at={int(k): tuple(v) for k, v in case.get("error_at", {}).items()},
+                                     values=case.get("values"))
     client = vworld.Client("192.0.2.1", vworld.V2C("public"), sender=agent)
     return roots, U, agent, client
 
@@ -177,6 +178,8 @@ def run_case(case) -> Result:
         classes.append("nonadvancing_reachable")
     if bulk == 0:
         classes.append("bulk=0")
+    if case.get("values"):
+        classes.append("exception_marker_values" if any(v in (1, 2) for v in case["values"]) else "other_value_types")
     if case.get("empty_at"):
         classes.append("empty_response_scripted")
     if case.get("error_at"):
@@ -326,7 +329,13 @@ def cases(draw):
             for j in range(k):
                 for rep in range(reps):
                     tab[len(roots) + idx[j]][rep] = idx[(j + 1) % k]
-    return dict(nroots=nroots, inside=inside, variant=variant, op=op,
+    # what the returned OIDs are bound to: mostly INTEGER; sometimes an exception marker or another type at some OIDs
+    values = draw(st.sampled_from([None, None, None, "some", "some", "all"]))
+    if values == "some":
+        values = [draw(st.sampled_from([0, 0, 0, 1, 2, 3, 4])) for _ in U]
+    elif values == "all":
+        values = [draw(st.sampled_from([1, 2]))] * len(U)
+    return dict(nroots=nroots, inside=inside, variant=variant, op=op, values=values,
                 errors=draw(st.sampled_from(["strict", "strict", "warn"])),
                 bulk=bulk, f=tab, stop_all_eom=draw(st.booleans()),
                 empty_at=draw(st.sampled_from([[], [], [], [], [], [0], [1], [2], [1, 2], [3]])),
